@@ -106,6 +106,20 @@ def check_drain_before_release(ctx, rule):
     return n
 
 
+def check_consume_asks_queue(ctx, rule):
+    """every answer of a Multi channel's consume(stream_id) is produced after asking the listener's queue, once: a `None` answered without asking (stream already told to
+    end, 'nothing to do' shortcut) is read as 'empty' by the poll protocol and by the drain-on-drop loop (`while self.consume(id).is_some() {}`), which then skip /
+    leave behind queued events -- the id's next owner yields events sent before it was created"""
+    fx = ctx.fx
+    for name in PER_LISTENER_QUEUES:
+        kc = f"{R.CHANNELS[name]} as {R.T_CONS}::consume"
+        cb = Body(fx.fn(kc))
+        dq = [(b, c) for (b, c) in cb.calls if c.get("fname") in ("consume_movable", "try_recv")]
+        ok = len(dq) == 1 and util.on_every_return_path(cb, dq[0][0]) and not util.in_loop(cb, dq[0][0])
+        ctx.ob(rule, f"{kc}|asks-its-queue-on-every-path", ok, cb.loc(dq[0][0]) if dq else f"{cb.f['file']}:{cb.f['line']}",
+               f"{len(dq)} dequeue call(s); required: exactly one, on every path to an answer (a `None` produced without asking the queue is taken for 'empty' by poll_next and by the drain-on-drop loop)")
+
+
 def _release_once(ctx, rule, key, body, dg, rel, site):
     is_rel = lambda b: any(b == x for (x, _) in rel)
     lo, hi, inloop = util.count_on_paths(body, is_rel)
@@ -215,3 +229,131 @@ def check_cancel_not_repeated(ctx, rule):
                "iteration cancels the NEW stream that got the id")
     if not cs:
         ctx.ob(rule, f"{k}|cancel-not-repeated-by-the-wait-loop", False, f"{body.f['file']}:{body.f['line']}", "end_stream never cancels its target")
+
+
+# ---------------------------------------------------------------------------------------------------------------------------------------------------------
+def _root_with_offset(body, o, depth=0):
+    """follows an operand back through copies, integer casts and +-literal (checked, wrapping or plain) to the first multiply-defined local:
+    returns (local, offset, (block, stmt index) where that local is read) or None"""
+    from mir import op_local, op_int
+    if depth > 12 or o[0] not in ("c", "m"): return None
+    p = o[1]
+    extra = 0
+    fld0 = bool(p["p"]) and len(p["p"]) == 1 and isinstance(p["p"][0], list) and p["p"][0][0] == "f" and p["p"][0][2] == 0
+    if p["p"] and not fld0: return None
+    l = p["l"]
+    ds = [d for d in body.defs.get(l, []) if d[0] in body.reachable]
+    if len(ds) != 1 or body.partial_writes(l): return ("L", l)
+    b, i, rv = ds[0]
+    def here(r):
+        if r is not None and len(r) == 2 and r[0] == "L": return (r[1], 0, (b, i))
+        return r
+    if fld0:
+        if rv[0] == "Bin" and rv[1] in ("AddWithOverflow", "SubWithOverflow"):
+            k = op_int(rv[3])
+            if k is None: return None
+            r = here(_root_with_offset(body, rv[2], depth + 1))
+            return None if r is None else (r[0], r[1] + (k if rv[1].startswith("Add") else -k), r[2])
+        return None
+    if rv[0] == "Use": return here(_root_with_offset(body, rv[1], depth + 1))
+    if rv[0] == "Cast": return here(_root_with_offset(body, rv[2], depth + 1))
+    if rv[0] == "Bin" and rv[1] in ("Add", "Sub", "AddUnchecked", "SubUnchecked"):
+        k = op_int(rv[3])
+        if k is None: return None
+        r = here(_root_with_offset(body, rv[2], depth + 1))
+        return None if r is None else (r[0], r[1] + (k if rv[1].startswith("Add") else -k), r[2])
+    if rv[0] == "CallRes" and rv[1].get("fname") in ("wrapping_add", "wrapping_sub") and len(rv[1]["args"]) == 2:
+        k = op_int(rv[1]["args"][1])
+        if k is None: return None
+        r = here(_root_with_offset(body, rv[1]["args"][0], depth + 1))
+        return None if r is None else (r[0], r[1] + (k if "add" in rv[1]["fname"] else -k), r[2])
+    return None
+
+
+def _innermost_loop(body, b):
+    best = None
+    for h, blocks in body.loops.items():
+        if b in blocks and (best is None or len(blocks) < len(body.loops[best])): best = h
+    return best
+
+
+def check_rebuild_cursor(ctx, rule):
+    """The rebuild of the live-listener list writes its entries through a running cursor and pads the rest with the end-of-list sentinel.  Whatever the spelling
+    (cursor starting at -1 and bumped before each store, or at 0 and bumped after it), three facts must agree: the first entry lands on index 0, every store is paired
+    with exactly one bump, and the padding starts at the first index no entry was written to -- `cursor + 1` in the first spelling, `cursor` in the second.  A padding
+    that starts one slot late leaves a stale id behind the last live entry after a listener was removed: fan-outs that walk to the sentinel feed a dead listener's queue
+    (the id's next owner yields events sent before it existed) or feed a live listener twice; one slot early drops the last live listener from every fan-out."""
+    fx = ctx.fx
+    key = SM + "::sync_vacant_and_used_streams"
+    f = fx.fn_opt(key)
+    if f is None: return
+    body = Body(f); dg = D.Dag(body)
+    site = f"{f['file']}:{f['line']}"
+    stores = []
+    for b in sorted(body.reachable):
+        for si, st in enumerate(body.stmts(b)):
+            if st[0] != "A" or st[1]["p"] != ["*"]: continue
+            d = body.single_def(st[1]["l"])
+            if d is None or d[2][0] != "CallRes": continue
+            c = d[2][1]
+            if c.get("fname") not in ("get_unchecked_mut", "index_mut") or len(c["args"]) < 2: continue
+            if "used_streams" not in D.show(dg.expr(c["args"][0])): continue
+            val = strip_casts(dg.expr(st[2][1])) if st[2][0] == "Use" else None
+            sentinel = val is not None and ((val[0] == "gconst" and str(val[1]).endswith("u32::MAX")) or (val[0] == "const" and val[1] == 0xFFFFFFFF))
+            stores.append({"b": d[0], "idx": c["args"][1], "sentinel": sentinel})
+    live = [s for s in stores if not s["sentinel"]]; pad = [s for s in stores if s["sentinel"]]
+    if not live or not pad:
+        ctx.undecided(rule, f"{key}|cursor-discipline", site, f"{len(live)} entry store(s), {len(pad)} sentinel store(s) recognised: the rebuild is not the cursor-and-padding loop"); return
+    ds = set(); cursors = set(); why = None
+    for s in live:
+        r = _root_with_offset(body, s["idx"])
+        if r is None or len(r) != 3: why = "an entry store's index is not a running cursor"; break
+        L, off, (rb, ri) = r
+        cursors.add(L)
+        incs = []
+        for (b_, i_, rv_) in body.defs.get(L, []):
+            if b_ not in body.reachable: continue
+            if rv_[0] == "Use" and rv_[1][0] == "k": continue              # initial value
+            rr = _root_with_offset(body, rv_[1]) if rv_[0] == "Use" else None
+            if rr is not None and len(rr) == 3 and rr[0] == L and rr[1] == 1: incs.append((b_, i_))
+            else: why = "the cursor is updated by something else than `+ 1`"
+        lp = _innermost_loop(body, rb)
+        before = [(b_, i_) for (b_, i_) in incs if _innermost_loop(body, b_) == lp and ((b_ == rb and i_ < ri) or (b_ != rb and body.dominates(b_, rb)))]
+        after = [(b_, i_) for (b_, i_) in incs if _innermost_loop(body, b_) == lp and ((b_ == rb and i_ > ri) or (b_ != rb and body.dominates(rb, b_)))]
+        if len(before) + len(after) != 1: why = f"an entry store is paired with {len(before) + len(after)} cursor bumps in its loop iteration (exactly one expected)"; break
+        ds.add((1 if before else 0) + off)
+    if why or len(cursors) != 1 or len(ds) != 1:
+        ctx.undecided(rule, f"{key}|cursor-discipline", site, why or "entry stores do not share one cursor / one store-to-bump order"); return
+    L = cursors.pop(); d = ds.pop()
+    inits = [rv_[1][1].get("int") for (b_, i_, rv_) in body.defs.get(L, []) if b_ in body.reachable and rv_[0] == "Use" and rv_[1][0] == "k"]
+    ok0 = len(inits) == 1 and inits[0] is not None and inits[0] + d == 0
+    ctx.ob(rule, f"{key}|first-entry-lands-on-index-0", ok0, site, f"cursor starts at {inits}, entries are stored at cursor{'+1' if d else ''} (bump {'before' if d else 'after'} the store); required: start + {d} == 0")
+    # padding start
+    ps = set(); whyp = None
+    for s in pad:
+        e = strip_casts(dg.expr(s["idx"]))
+        # `for i in START..MAX_STREAMS`: the index is the item of a Range whose start is cursor + p
+        rng = None
+        for b in sorted(body.reachable):
+            for st in body.stmts(b):
+                if st[0] == "A" and st[2][0] == "Agg" and st[2][1][0] == "Adt" and "ops::Range" in st[2][1][1] and len(st[2][2]) == 2 and body.dominates(b, s["b"]):
+                    r = _root_with_offset(body, st[2][2][0])
+                    if r is not None and len(r) == 3 and r[0] == L: rng = r
+        if rng is not None and "next" in D.show(e):
+            ps.add(rng[1]); continue
+        r = _root_with_offset(body, s["idx"])
+        if r is not None and len(r) == 3 and r[0] == L:
+            # the padding loop carries on with the same cursor: same store-to-bump order required
+            rb, ri = r[2]
+            lp = _innermost_loop(body, rb)
+            incs = [(b_, i_) for (b_, i_, rv_) in body.defs.get(L, []) if b_ in body.reachable and _innermost_loop(body, b_) == lp and rv_[0] == "Use" and rv_[1][0] != "k"]
+            before = [x for x in incs if (x[0] == rb and x[1] < ri) or (x[0] != rb and body.dominates(x[0], rb))]
+            ps.add((1 if before else 0) + r[1]); continue
+        whyp = "the padding's start is not derived from the entry cursor"
+    if whyp or len(ps) != 1:
+        ctx.undecided(rule, f"{key}|padding-starts-after-the-last-entry", site, whyp or "several padding loops"); return
+    p = ps.pop()
+    ctx.ob(rule, f"{key}|padding-starts-after-the-last-entry", p == d, site,
+           f"the sentinel padding starts at cursor{'%+d' % p if p else ''}; with the bump {'before' if d else 'after'} each entry store the first unwritten index is cursor{'+1' if d else ''}" +
+           ("" if p == d else (": one slot LATE -- a stale id stays behind the last live entry (a dropped listener's queue keeps being fed, or a live one is fed twice)" if p > d else
+                               ": one slot EARLY -- the last live listener is overwritten by the sentinel and dropped from every fan-out")))
